@@ -43,7 +43,7 @@ def rq(name, entry, spec, ops=None, kind=0, ql=1, ql2=1, t0l=1, t1l=1, verify=0,
     R = max(maxr, ir)
     run_max = max(maxrun, irun)
     d = shapes.reader_defines(**spec)
-    d.update({"KIND": kind, "QL": ql, "QL2": ql2, "T0L": t0l, "T1L": t1l, "VERIFY": verify})
+    d.update({"KIND": kind, "QL": ql, "QL2": ql2, "T0L": t0l, "T1L": t1l, "VERIFY": int(verify)})
     if ops is not None:
         d["OPS"] = '"%s"' % ops
     if extra:
